@@ -13,6 +13,9 @@ TRUSTED_EXTRA = ["C17: the derivative theorem is stated where every event is off
 ASSUMPTIONS = ["missing observations are NaN in the data array (model: `none`)"]
 
 
+LAST_CASE = {}
+
+
 def make_case(rnd, dim):
     from hmclab.Distributions import SourceLocation2D, SourceLocation3D
 
@@ -29,6 +32,8 @@ def make_case(rnd, dim):
     infer = rnd.random() < 0.6
     sig_scalar = rnd.random() < 0.4
     sigma = rnd.choice([0.5, 1.0, 2.0]) if sig_scalar else np.array([[rnd.uniform(0.3, 2.0) for _ in range(ns)] for _ in range(ne)])
+    # a scalar uncertainty is a scalar however it is spelled (numpy.std() returns a numpy.float64)
+    sigma_spelling = rnd.choice(["float", "float", "numpy.float64", "numpy.float32", "int", "0-d array"]) if sig_scalar else "array"
     if dim == 2:
         data = SourceLocation2D.forward(x, z, T, v, rx, rz)
     else:
@@ -47,6 +52,10 @@ def make_case(rnd, dim):
     # the constructors also accept the (stations x events) layout for the picks and for their uncertainties (unambiguous when ne != ns)
     layout = "events x stations"
     data_arg, sigma_arg = data, sigma
+    if sig_scalar:
+        if sigma_spelling == "int":
+            sigma = 2.0 if sigma != 1.0 else 1.0
+        sigma_arg = {"float": float(sigma), "numpy.float64": np.float64(sigma), "numpy.float32": np.float32(sigma), "int": int(sigma), "0-d array": np.array(float(sigma))}[sigma_spelling]
     if ne != ns and rnd.random() < 0.4:
         which = rnd.choice(["data", "sigma", "both"])
         if which in ("data", "both"):
@@ -54,6 +63,8 @@ def make_case(rnd, dim):
         if which in ("sigma", "both") and not sig_scalar:
             sigma_arg = np.ascontiguousarray(sigma.T)
         layout = f"stations x events ({which})"
+    LAST_CASE.clear()
+    LAST_CASE.update({"dim": dim, "events": ne, "stations": ns, "sigma_spelling": sigma_spelling, "layout": layout, "infer_velocity": infer})
     with quiet():
         if dim == 2:
             obj = SourceLocation2D(rx, rz, data_arg, sigma_arg, infer_velocity=infer, medium_velocity=None if infer else v)
@@ -66,7 +77,7 @@ def make_case(rnd, dim):
         truth.append(v)
     truth = np.array(truth).reshape(-1, 1)
     desc = {"dim": dim, "events": ne, "stations": ns, "infer_velocity": infer, "sigma": "scalar" if sig_scalar else "array", "missing": int(mask.sum()),
-            "noise_free": noise_free, "layout": layout}
+            "noise_free": noise_free, "layout": layout, "sigma_spelling": sigma_spelling}
     geo = {"rx": rx, "ry": ry, "rz": rz, "data": data, "sigma": sigma if not sig_scalar else np.ones((ne, ns)) * sigma, "v": v}
     return obj, truth, desc, geo
 
@@ -113,7 +124,14 @@ def run(tier, seed):
     reqs, metas = [], []
     for i in range(1600 if thorough else 420):
         dim = 2 if i % 2 == 0 else 3
-        obj, truth, desc, geo = make_case(rnd, dim)
+        try:
+            obj, truth, desc, geo = make_case(rnd, dim)
+        except Exception as e:
+            st.case({"construct": repr(e)}, nontrivial=False)
+            st.disagree({"construct": True}, "constructible", repr(e), "constructor raised on legal arguments")
+            findings.append(Finding("C17", f"SourceLocation{dim}D constructor raised on legal arguments: {e!r} (last case description: {LAST_CASE})",
+                                    {"kind": "construct", "what": LAST_CASE.get("sigma_spelling", "?")}, {"oracle": "construct", "case": dict(LAST_CASE), "error": repr(e)}))
+            continue
         at_truth = rnd.random() < 0.3
         m = truth.copy() if at_truth else truth + np.array([[rnd.gauss(0, 0.5)] for _ in range(truth.size)])
         if desc["infer_velocity"]:
@@ -127,11 +145,18 @@ def run(tier, seed):
             coords = [geo["rx"][0, s_]] + ([geo["ry"][0, s_]] if dim == 3 else []) + [geo["rz"][0, s_]]
             for c, val in enumerate(coords):
                 m[e * (dim + 1) + c, 0] = val
+        # the same model written down with whole numbers in an integer array is the same model
+        int_model = (not on_station) and (not at_truth) and rnd.random() < 0.15
+        if int_model:
+            m = np.round(m)
+            if desc["infer_velocity"]:
+                m[-1, 0] = max(1.0, m[-1, 0])
+        m_arg = m.astype(np.int64) if int_model else m
         with np.errstate(all="ignore"), quiet():
-            mis = float(obj.misfit(m.copy()))
-            g = np.array(obj.gradient(m.copy()), dtype=float)
-            fw = np.array(obj.forward_vector(m.copy()), dtype=float)
-        stim = {"config": desc, "m": m.ravel().tolist(), "at_truth": at_truth, "event_on_station": on_station}
+            mis = float(obj.misfit(m_arg.copy()))
+            g = np.array(obj.gradient(m_arg.copy()), dtype=float)
+            fw = np.array(obj.forward_vector(m_arg.copy()), dtype=float)
+        stim = {"config": desc, "m": m.ravel().tolist(), "at_truth": at_truth, "event_on_station": on_station, "integer_model_vector": int_model}
         st.case(stim, nontrivial=(desc["events"] >= 2 and desc["missing"] >= 1),
                 sample={"config": desc, "misfit": mis} if len(st.samples) < 3 else None)
         st.count(f"dim={dim}")
@@ -140,6 +165,9 @@ def run(tier, seed):
         st.count(f"layout={desc['layout']}")
         if on_station:
             st.count("an event exactly on a station")
+        if int_model:
+            st.count("model vector as integer array")
+        st.count(f"sigma spelled as {desc['sigma_spelling']}")
         problems = []
         if g.shape != (truth.size, 1):
             problems.append(f"gradient shape {g.shape}")
